@@ -237,6 +237,18 @@ def check_vec_helper(ctx, cfg, b, vi, rule="C15.D"):
         ibs = [c for c in a.calls if c.fn == "alloc::vec::Vec::<T, A>::into_boxed_slice" and c.args[0] == vec]
         ir = [c for c in a.calls if c.fn.endswith("::into_raw")]
         fr = [c for c in a.calls if c.fn.endswith("::from_raw")]
+        if len(ibs) == 1 and len(ir) == 1 and len(fr) == 1 and not all(r["val"] == fr[0].ret for r in a.returns):
+            # the adopted box may reach the return through a Result and a match (try_from_boxed_slice expanded, `Ok(b) => b`, the Err arm an
+            # optimiser hint): judge the tree-shaped body, where each return path carries its own value; a path that ends in
+            # `unreachable_unchecked` does not return - that hint is admissible exactly like `unwrap_unchecked` (the type-level tie, checked below)
+            a2 = ctx.analysis_inl(cfg, key, force="*", keep=(K + "try_from_vec",), tag="helper", split=True)
+            ir2 = [c for c in a2.calls if c.fn.endswith("::into_raw")]
+            fr2 = [c for c in a2.calls if c.fn.endswith("::from_raw")]
+            hints = [c for c in a2.calls if c.fn == "core::hint::unreachable_unchecked"]
+            if a2.returns and len(ir2) == 1 and fr2 and all(any(r["val"] == f.ret for f in fr2) for r in a2.returns) and (not hints or eqp):
+                a = a2
+                ibs = [c for c in a.calls if c.fn == "alloc::vec::Vec::<T, A>::into_boxed_slice" and c.args[0] == vec]
+                ir, fr = ir2, [f for f in fr2 if any(r["val"] == f.ret for r in a2.returns)][:1]
         if len(ibs) == 1 and len(ir) == 1 and len(fr) == 1:
             same = ir[0].args[0] == ibs[0].ret and fr[0].args[0][0] == "P" and ir[0].ret[0] == "P" and fr[0].args[0][1] == ir[0].ret[1] and fr[0].args[0][2] == ir[0].ret[2]
             ln = [c for c in a.calls if c.fn == "core::slice::<impl [T]>::len" and c.ret[0] == "I"]
